@@ -671,6 +671,31 @@ class Cmp(Term):
         self.poly = d
         self.cop = op
 
+    def relation(self, a_pred, b_pred):
+        """OP such that this comparison states `a OP b` for the two atoms matched by the predicates
+        (integer offsets of +-1 are folded: a > b - 1 is a >= b), or None."""
+        atoms = [(k[0], c) for k, c in self.poly.t.items() if len(k) == 1]
+        const = self.poly.t.get((), 0)
+        if len(atoms) != 2 or len(self.poly.t) - (1 if const else 0) != 2:
+            return None
+        (x, cx), (y, cy) = atoms
+        if abs(cx) != 1 or abs(cy) != 1 or cx * cy >= 0:
+            return None
+        pos, neg = (x, y) if cx > 0 else (y, x)
+        op = self.cop          # pos - neg + const OP 0
+        if const != 0:
+            # pos - neg OP -const  (integers)
+            fold = {(">", 1): ">=", (">=", -1): ">", ("<", -1): "<=", ("<=", 1): "<"}
+            if (op, const) in fold:
+                op = fold[(op, const)]
+            else:
+                return None
+        if a_pred(pos) and b_pred(neg):
+            return op
+        if a_pred(neg) and b_pred(pos):
+            return CMP_FLIP[op]
+        return None
+
     def asserts_less(self, a_pred, b_pred, allow_eq=True, strict_ok=True):
         """True when this comparison states a < b (or a <= b): exactly two atoms, matched by the predicates."""
         atoms = [(k[0], c) for k, c in self.poly.t.items() if len(k) == 1]
